@@ -1264,6 +1264,10 @@ func JudgeSampler(r *kernel.Run, step int, how string, cands [][]byte, dev *kern
 	if devErrHit {
 		return
 	}
+	if dev.MaxEmptyRun() > kernel.PatienceBound {
+		r.Probe("gave_up_with_an_error_after_a_long_run_of_empty_reads")
+		return
+	}
 	if idx == 0 {
 		r.Violate("C09", "sampler-spurious-error", how, step, "%s failed (%v) although the first candidate is valid and the device is healthy", desc, err)
 	}
